@@ -138,11 +138,96 @@ end PiquassoLemmas
 
 namespace PiquassoLemmas
 
+/-- row absorption: `C(N+1, i) · i = C(N, i-1) · (N+1)` (step of `binomialCoeff<int>` in src/utils.hpp) -/
+theorem absorb_row (N i : ℤ) (h : 0 ≤ N ∧ 1 ≤ i) : C (N + 1) i * i = C N (i - 1) * (N + 1) := by
+  obtain ⟨NN, rfl⟩ := Int.eq_ofNat_of_zero_le h.1
+  obtain ⟨ii, hi⟩ : ∃ ii : ℕ, i = (ii : ℤ) + 1 := ⟨(i - 1).toNat, by omega⟩
+  subst hi
+  have e1 : ((NN : ℤ) + 1) = ((NN + 1 : ℕ) : ℤ) := by push_cast; ring
+  have e2 : ((ii : ℤ) + 1) = ((ii + 1 : ℕ) : ℤ) := by push_cast; ring
+  have e3 : ((ii : ℤ) + 1 - 1) = (ii : ℤ) := by ring
+  rw [e3, e1, e2, C_nat, C_nat]
+  have := Nat.add_one_mul_choose_eq NN ii
+  have h2 : ((NN + 1 : ℕ) : ℤ) * (Nat.choose NN ii : ℤ) = (Nat.choose (NN + 1) (ii + 1) : ℤ) * ((ii + 1 : ℕ) : ℤ) := by
+    exact_mod_cast this
+  rw [← h2]; ring
+
+theorem choose_diag_mono (m r j : ℕ) : Nat.choose m r ≤ Nat.choose (m + j) (r + j) := by
+  induction j with
+  | zero => simp
+  | succ j ih =>
+    have step : Nat.choose (m + j) (r + j) ≤ Nat.choose (m + j + 1) (r + j + 1) := by
+      rw [Nat.choose_succ_succ]; exact Nat.le_add_right _ _
+    exact le_trans ih step
+
+/-- the intermediates of `binomialCoeff` stay below the final value -/
+theorem C_mono_diag (n k i : ℤ) (h : 0 ≤ i ∧ i ≤ k ∧ k ≤ n) : C (n - k + i) i ≤ C n k := by
+  obtain ⟨h0, hik, hkn⟩ := h
+  obtain ⟨ii, rfl⟩ := Int.eq_ofNat_of_zero_le h0
+  obtain ⟨kk, rfl⟩ := Int.eq_ofNat_of_zero_le (le_trans h0 hik)
+  obtain ⟨nn, rfl⟩ := Int.eq_ofNat_of_zero_le (le_trans (le_trans h0 hik) hkn)
+  have hik' : ii ≤ kk := by exact_mod_cast hik
+  have hkn' : kk ≤ nn := by exact_mod_cast hkn
+  have e : ((nn : ℤ) - (kk : ℤ) + (ii : ℤ)) = ((nn - kk + ii : ℕ) : ℤ) := by omega
+  rw [e, C_nat, C_nat]
+  have key := choose_diag_mono (nn - kk + ii) ii (kk - ii)
+  have e1 : nn - kk + ii + (kk - ii) = nn := by omega
+  have e2 : ii + (kk - ii) = kk := by omega
+  rw [e1, e2] at key
+  exact_mod_cast key
+
+theorem div_exact (a b c : ℤ) (h : 0 < b ∧ a = b * c) : a / b = c := by
+  obtain ⟨hb, rfl⟩ := h
+  exact Int.mul_ediv_cancel_left c (ne_of_gt hb)
+
 open scoped ComplexOrder in
 /-- congruence preserves positive semidefiniteness: used for the uncertainty relation
     `σ + iħΩ ≥ 0 ⇒ S(σ + iħΩ)Sᴴ ≥ 0` (C08) -/
 theorem psd_congr {n : Type*} [Fintype n] [DecidableEq n] (M S : Matrix n n ℂ) (h : M.PosSemidef) :
     (S * M * S.conjTranspose).PosSemidef :=
   h.mul_mul_conjTranspose_same S
+
+end PiquassoLemmas
+
+namespace PiquassoLemmas
+
+theorem C_le_middle (n k : ℤ) (h : 0 ≤ n) : C n k ≤ C n (n / 2) := by
+  obtain ⟨nn, rfl⟩ := Int.eq_ofNat_of_zero_le h
+  have hmid : ((nn : ℤ) / 2) = ((nn / 2 : ℕ) : ℤ) := by omega
+  by_cases hk : 0 ≤ k ∧ k ≤ (nn : ℤ)
+  · obtain ⟨kk, rfl⟩ := Int.eq_ofNat_of_zero_le hk.1
+    rw [hmid, C_nat, C_nat]
+    exact_mod_cast Nat.choose_le_middle kk nn
+  · have h0 : C (nn : ℤ) k = 0 := by
+      apply C_out
+      rcases not_and_or.mp hk with h1 | h1
+      · right; left; omega
+      · right; right; omega
+    rw [h0, hmid, C_nat]
+    positivity
+
+theorem mul_le (a b x y : ℤ) (h : 0 ≤ a ∧ a ≤ x ∧ 0 ≤ b ∧ b ≤ y) : a * b ≤ x * y := by
+  obtain ⟨h1, h2, h3, h4⟩ := h
+  exact mul_le_mul h2 h4 h3 (le_trans h1 h2)
+
+theorem le_of_mul_le (a b m : ℤ) (h : 1 ≤ a ∧ 0 ≤ b ∧ a * b ≤ m) : b ≤ m := by
+  obtain ⟨h1, h2, h3⟩ := h
+  nlinarith
+
+theorem mul_cancel (a b c : ℤ) (h : 0 < c ∧ a * c = b * c) : a = b := by
+  obtain ⟨hc, he⟩ := h
+  exact mul_right_cancel₀ (ne_of_gt hc) he
+
+end PiquassoLemmas
+
+namespace PiquassoLemmas
+
+theorem mul_eq (a b c : ℤ) (h : a = b) : a * c = b * c := by rw [h]
+
+theorem C_nonneg (n k : ℤ) : 0 ≤ C n k := by
+  unfold C
+  split_ifs
+  · exact Int.natCast_nonneg _
+  · exact le_refl 0
 
 end PiquassoLemmas
